@@ -118,7 +118,7 @@ theorem dtop6 {W : World} {K : Nat} (hW : WOK6 W) (hK : KB W K) {Γ : Gam} {b : 
     (the second disjunct is literally the one of the forward theorems `top_program6`, `program6`) -/
 def NoEnd (bc : Bytecode) (n : Nat) : Prop :=
   (∃ s', runSteps bc.code n (VM.start {} bc) = .budget s') ∨
-  (∃ n0 s', ∀ k, runSteps bc.code (n0 + k) (VM.start {} bc) = .error .index s')
+  HitsLimit bc
 
 /-- DIVERGENCE PRESERVATION, stage 6, whole programs (same hypotheses as `top_program6`): with fuel `F` exhausted the
     machine makes at least `(F + dB p - dB p) / dB p = F / dB p` steps, or stops at its limit -/
@@ -164,8 +164,8 @@ theorem top_div6_steps (p : RBlock) (Γ' : Gam) (D : List (Nat × FnInfo)) (hy :
   exact hdiv
 
 theorem DivG.noEnd {bc : Bytecode} {n : Nat} (h : DivG bc.code (VM.start {} bc) n) : NoEnd bc n := by
-  rcases h with ⟨n0, s1, s2, hn, hs⟩ | h
-  · exact .inr ⟨n0 + 1, s2, fun k => run_error bc.code n0 _ s1 .index s2 hn hs k⟩
+  rcases h with ⟨n0, s1, hn, hl⟩ | h
+  · exact .inr ⟨n0, s1, hn, hl⟩
   · exact .inl h.budget
 
 /-- (T2, on resolved programs) a program of the stage-6 fragment whose definitional evaluation never ends: for every
@@ -182,7 +182,7 @@ theorem top_div6 (p : RBlock) (Γ' : Gam) (D : List (Nat × FnInfo)) (hy : ZTop 
 theorem program_div6 (ast : Block) (r : RBlock) (bc : Bytecode) (hc : compileProgram ast = .ok (r, bc)) (hin : inFragment6 r = true)
     (hdiv : ∀ F, Spec.evalB F r {} = .fuel) (n : Nat) :
     (∃ s', runSteps bc.code n (VM.start {} bc) = .budget s') ∨
-    (∃ n0 s', ∀ k, runSteps bc.code (n0 + k) (VM.start {} bc) = .error .index s') := by
+    HitsLimit bc := by
   obtain ⟨Γ', D, hy, hnd⟩ := inFragment6_sound r hin
   unfold compileProgram at hc
   cases hr : resolveProgram ast with
